@@ -9,6 +9,7 @@ import Driver.EmfSpec
 import Driver.Aggregation
 import Driver.KeepAlive
 import Driver.Sampling
+import Driver.Naming
 /-!
 `driver <engine>`: reads one request per line on stdin, prints one reply per line.
 Every engine is a pure function `String → String` of the request line (stateful models receive the
@@ -26,7 +27,8 @@ def engines : List (String × (String → String)) := [
   ("emfspec", Driver.EmfSpec.handle),
   ("aggregation", Driver.Aggregation.handle),
   ("keepalive", Driver.KeepAlive.handle),
-  ("sampling", Driver.Sampling.handle)
+  ("sampling", Driver.Sampling.handle),
+  ("naming", Driver.Naming.handle)
 ]
 
 partial def loop (h : IO.FS.Stream) (out : IO.FS.Stream) (f : String → String) : IO Unit := do
